@@ -271,6 +271,7 @@ func runC12(o *Out) {
 		o.hist("stream_piece", strconv.Itoa(piece))
 	}
 	// ---------- encode side ----------
+	c12MarshalerWindows(o)
 	nm := 1500
 	if o.tier == "thorough" {
 		nm = 20000
